@@ -57,6 +57,14 @@ CLAIMS = {
    technique="static ownership/encapsulation, sentinel-flow and path-table analysis over go/ssa (closures resolved through their bindings)",
    text="Decides who may write Sorted's backing slice (only Insert in Add, Remove in Remove/RemoveAt), that it is never aliased in or out (NewSorted makes+copies on every path and leaves its argument alone; nothing returns the slice), that positions come from sort.Search over the whole length with the lower-bound predicate !less(s[i],value), that Index validates with == and < Len, that Remove deletes only at a validated position and otherwise returns -1 unchanged, and package-wide that a -1 sentinel never reaches an index.",
    note="Not decided: the inductive step to 'sorted after every history' (needs sort.Search's semantics on sorted data, trusted, plus C12's splice clauses)."),
+ "C01": dict(cat="other", sec="4 C01",
+   technique="static path-table and flow rules over go/ssa: size-cache coherence, definite assignment of the comparator, descent agreement, traversal-order tables, subtree conservation",
+   text="Decides the structural necessary conditions of the sorted-multiset property on all paths of avl/avl.go: Len's cache changes exactly with successful insertions/removals, every Tree built in the package has a comparator and keeps it, Clone re-inserts a walk into a fresh tree, add/find/remove agree on which child holds smaller/larger values and test == first, the three walkers visit in their order recursing into themselves and the public walkers/slices dispatch to the matching one, and node.remove hands every child subtree of the unlinked node to the result exactly once without overwriting a live child pointer.",
+   note="Not decided: that these compose to 'in-order walk = sorted multiset after every history' (an inductive invariant over runtime values)."),
+ "C02": dict(cat="other", sec="4 C02",
+   technique="static typestate/path-table rules over go/ssa: height-refresh-before-escape, rebalance-on-return, height convention by constant propagation, rotation decision table with structural rotation classification",
+   text="Decides that avl/avl.go is the textbook AVL update: after every child store the node's cached height is recomputed before the node flows upwards, every modified subtree root is returned through rebalance, the empty-subtree height is one less than a leaf's, balance() leans exactly at a difference above one, rebalance maps (outer lean, strict sign of the heavy child's lean) to the four rotations which are recognised by structure, and rotations re-height the demoted node before the promoted one.",
+   note="Not decided: the induction from these rules to |lean| <= 1 everywhere and the 1.44 log2 depth bound (needs a height/shape abstract domain with an inductive proof; out of reach)."),
 }
 
 checks, na = [], []
